@@ -10,8 +10,8 @@ import Py4hwV.Proto.Axi
   Environment assumption of the property ("done is only signalled after a completed transfer"):
     `R2A.doneLiteral`  : ap_done = 1 only in cycles where the sent flag is up            (literal reading)
     `R2A.doneQuiet`    : ap_done = 1 only in cycles with no beat pending (tvalid = 0) and no load pulse taking effect
-  The Reg2Axi theorems need `doneQuiet`; under `doneLiteral` alone the block misbehaves (Props/C16.lean,
-  `r2a_done_while_pending_counterexample`).
+  The Reg2Axi clauses `clausesQ` need `doneQuiet`; under `doneLiteral` alone the block misbehaves (Props/C16.lean,
+  `r2a_done_while_pending_counterexample`).  The clauses `clausesU` (reset priority among them) hold in every state.
 -/
 namespace Axi
 namespace Spec
@@ -122,45 +122,62 @@ def doneQuiet (o : Obs) (i : In) : Bool := i.ap_done != 1 || (o.tvalid == 0 && !
 structure Mon where
   data : Nat          -- value captured by the latest effective load pulse
   sentOk : Bool       -- a beat was accepted since the last clear
-  loads : Nat         -- effective load pulses so far
-  accepts : Nat       -- accepted beats so far
-  pend : Bool         -- doneQuiet was violated at some earlier cycle
+  loads : Nat         -- effective load pulses since the last reset
+  accepts : Nat       -- accepted beats since the last reset
+  pend : Bool         -- doneQuiet was violated at some earlier cycle and no reset has happened since
 deriving Repr, DecidableEq, Inhabited
 
 def Mon.init : Mon := ⟨0, false, 0, 0, false⟩
 
+/-- a reset brings the adapter (and the monitors) back to a clean state: counters restart, `pend` is forgotten -/
 def monStep (m : Mon) (o : Obs) (i : In) : Mon :=
   { data := if loadEff o i then i.reg_in else m.data
     sentOk := if clear o i then false else if accept o i then true else m.sentOk
-    loads := if loadEff o i then m.loads + 1 else m.loads
-    accepts := if accept o i then m.accepts + 1 else m.accepts
-    pend := m.pend || !doneQuiet o i }
+    loads := if i.ap_reset == 1 then 0 else if loadEff o i then m.loads + 1 else m.loads
+    accepts := if i.ap_reset == 1 then 0 else if accept o i then m.accepts + 1 else m.accepts
+    pend := if i.ap_reset == 1 then false else (m.pend || !doneQuiet o i) }
 
-def clauses (c : Cfg) (m : Mon) (o : Obs) (i : In) (o' : Obs) : List (String × Bool) :=
+/-- clauses that hold in EVERY state, whatever happened before (no environment assumption): in particular reset priority —
+    ap_reset clears VALID whatever `active` is, also in states reached through a done-while-pending. -/
+def clausesU (c : Cfg) (m : Mon) (o : Obs) (i : In) (o' : Obs) : List (String × Bool) :=
   let m' := monStep m o i
   [ ("tlast_eq_tvalid", o.tlast == o.tvalid && o'.tlast == o'.tvalid),
     ("tkeep_const", o.tkeep == tkeepVal c.W % 2^c.KW && o'.tkeep == tkeepVal c.W % 2^c.KW),
     ("active_rule", o'.active == activeNext o i),
     ("valid_stable", !(o.tvalid == 1 && i.ap_reset != 1 && !accept o i) || o'.tvalid == 1),
-    ("valid_drops_when_accepted_or_reset", !(accept o i || i.ap_reset == 1) || o'.tvalid == 0),
+    ("reset_clears_valid", !(i.ap_reset == 1) || o'.tvalid == 0),
     ("valid_raised_only_by_load", !(o.tvalid == 0 && o'.tvalid == 1) || loadEff o i),
     ("load_raises_valid", !(loadEff o i && i.ap_reset != 1 && !accept o i) || o'.tvalid == 1),
     ("tdata_is_latest_load", o'.tdata == m'.data % 2^c.DW),
-    ("sent_only_after_accept", !(o'.sent == 1) || m'.sentOk),
+    ("sent_only_after_accept", !(o'.sent == 1) || m'.sentOk) ]
+
+/-- clauses that rest on the environment assumption `doneQuiet` (an accepted beat is retired only while active) -/
+def clausesQ (m : Mon) (o : Obs) (i : In) (o' : Obs) : List (String × Bool) :=
+  let m' := monStep m o i
+  [ ("valid_drops_when_accepted", !(accept o i) || o'.tvalid == 0),
     ("sent_after_accept", !m'.sentOk || o'.sent == 1),
     ("no_duplicate_beat", decide (m'.accepts + o'.tvalid ≤ m'.loads)) ]
 
-/-- `quiet = true`: stop at the first violation of `doneQuiet`; `false`: stop only at a violation of `doneLiteral` -/
-def checkFrom (quiet : Bool) (c : Cfg) (m : Mon) (o : Obs) (t : Nat) : List (In × Obs) → Verdict
+/-- mode 0 (literal): stop at a violation of `doneLiteral`, judge every clause.
+    mode 1 (quiet): stop at the first violation of `doneQuiet`, judge every clause.
+    mode 2 (tolerant): stop at a violation of `doneLiteral`; the `clausesQ` are judged only while `pend` is down (no
+      `doneQuiet` violation since the last reset); the `clausesU` are judged in EVERY state. -/
+def assumed (mode : Nat) (o : Obs) (i : In) : Bool := if mode = 1 then doneQuiet o i else doneLiteral o i
+def judged (mode : Nat) (m : Mon) : Bool := mode != 2 || !m.pend
+
+def clauses (mode : Nat) (c : Cfg) (m : Mon) (o : Obs) (i : In) (o' : Obs) : List (String × Bool) :=
+  clausesU c m o i o' ++ (if judged mode m then clausesQ m o i o' else [])
+
+def checkFrom (mode : Nat) (c : Cfg) (m : Mon) (o : Obs) (t : Nat) : List (In × Obs) → Verdict
   | [] => .ok
   | (i, o') :: rest =>
-    if !(if quiet then doneQuiet o i else doneLiteral o i) then .stop t
-    else match firstFail (clauses c m o i o') with
-      | some cl => .fail t cl (monStep m o i).pend
-      | none => checkFrom quiet c (monStep m o i) o' (t + 1) rest
+    if !(assumed mode o i) then .stop t
+    else match firstFail (clauses mode c m o i o') with
+      | some cl => .fail t cl (m.pend || !doneQuiet o i)
+      | none => checkFrom mode c (monStep m o i) o' (t + 1) rest
 
-def check (quiet : Bool) (c : Cfg) (o0 : Obs) (tr : List (In × Obs)) : Verdict :=
-  checkFrom quiet c Mon.init o0 0 tr
+def check (mode : Nat) (c : Cfg) (o0 : Obs) (tr : List (In × Obs)) : Verdict :=
+  checkFrom mode c Mon.init o0 0 tr
 
 /-! pure functions of the history -/
 /-- value captured by the latest effective load pulse; `evs` = per cycle (load took effect, reg_in) -/
